@@ -66,8 +66,10 @@ def lazy_measure(task: dict) -> dict:
                         for e in itertools.islice(it, cfg["take"]):
                             got.append(readers.ex_id(e))
                             if cfg.get("pace"):
-                                time.sleep(cfg["pace"])
-                        time.sleep(0.15)  # let read-ahead threads run as far as they ever would
+                                (it.idle if hasattr(it, "idle") else time.sleep)(cfg["pace"])
+                        # let read-ahead threads (and, for the async interface, the event loop's tasks) run as far as
+                        # they ever would
+                        (it.idle if hasattr(it, "idle") else time.sleep)(0.15)
                         opened = {n for n in w.poll() if n.endswith(dsreal.EXT)}
                         close = getattr(it, "close", None)
                         if close:
